@@ -72,6 +72,9 @@ def excluded(spec):
         return "secret data key block with format / algorithm / length (discarded)"
     if o.get("type") == "Certificate" and o.get("ctype") != "X_509":
         return "certificate type other than X.509 (General Failure)"
+    if o.get("type") == "Certificate" and any(n in ("Cryptographic Algorithm", "Cryptographic Length")
+                                              for n, _ in attrs):
+        return "certificate with Cryptographic Algorithm / Length attribute (General Failure)"
     if path == "pie":
         g = X.group_by_name(spec.get("attrs", []))
         if spec["how"] == "register" and len(g.get("Name", [])) > 1:
@@ -109,6 +112,7 @@ def known_paths():
                                                    "fmt": "RAW"}, [])
     P["secret-data-alg-len"] = _reg("raw", (1, 2), {"type": "SecretData", "value": "70617373", "dtype": "SEED",
                                                     "alg": "AES", "len": 32}, [])
+    P["cert-length-attribute"] = _reg("raw", (1, 2), cert, [["Cryptographic Length", 2048]])
     P["cert-2.0-proxy"] = _reg("proxy", (2, 0), cert, [], probe_cert20=True)
     P["cert-2.0-pie"] = _reg("pie", (2, 0), cert, [], probe_cert20=True)
     P["pie-two-names"] = _reg("pie", (1, 2), sym, [["Name", {"v": "a", "t": X.UTS}], ["Name", {"v": "b", "t": X.UTS}]])
@@ -156,7 +160,11 @@ def worker(seed, shard, nshards, n_per_target):
             _record(col, spec, res)
             col.bump("bulk_" + ("accepted" if res["status"] == "accepted" else "not_accepted"))
         n = n_per_target if kind != "keypair" else max(4, n_per_target // 3)
-        core.draw_examples(G.case_s(path, kind), n, core.derive_seed(seed, "c05", path, kind), fn)
+        # independent Hypothesis runs of at most 150 examples: one long run clusters
+        rounds = (n + 149) // 150
+        for rnd in range(rounds):
+            k = n // rounds + (1 if rnd < n % rounds else 0)
+            core.draw_examples(G.case_s(path, kind), k, core.derive_seed(seed, "c05", path, kind, rnd), fn)
     if shard == 0:
         for label, spec in sorted(known_paths().items()):
             _record(col, spec, execute(spec), ["known-path:" + label])
